@@ -366,9 +366,51 @@ class FactoryRun:
         for o in self.oracles:
             o.on_entry(self, e)
 
+    def build_via_constructs(self):
+        """the helpers of factorysimpy.constructs create and wire the components; the classes handed to them are factories
+        that build this harness's instrumented node / edge for the id the helper chose"""
+        spec = self.spec
+        env = self.env
+
+        def node_f(env, id, **kw):
+            if id not in self.node_spec:
+                raise HarnessError("construct helper created an unexpected node id %r" % id)
+            n = self.make_node(self.node_spec[id])
+            self.nodes[id] = n
+            return n
+
+        def edge_f(env, id, **kw):
+            if id not in self.edge_spec:
+                raise HarnessError("construct helper created an unexpected edge id %r" % id)
+            e = self.make_edge(self.edge_spec[id])
+            self.edges[id] = e
+            return e
+        if spec["via"] == "chain":
+            from factorysimpy.constructs.chain import connect_chain_with_source_sink, connect_nodes_with_buffers
+            count = sum(1 for n in spec["nodes"] if n["type"] == "Machine")
+            nodes, edges, src, sink = connect_chain_with_source_sink(
+                env, count, node_f, edge_f, source_cls=node_f, sink_cls=node_f,
+                source_kwargs={"id": "Source"}, sink_kwargs={"id": "Sink"})
+            connect_nodes_with_buffers(nodes, edges, src, sink)
+        else:
+            from factorysimpy.constructs.mesh import connect_mesh_with_source_sink
+            connect_mesh_with_source_sink(env, spec["rows"], spec["cols"], node_f, edge_f, source_cls=node_f, sink_cls=node_f)
+        missing = [i for i in list(self.node_spec) + list(self.edge_spec) if i not in self.nodes and i not in self.edges]
+        if missing:
+            raise HarnessError("construct helper did not create %s" % missing)
+        for eid, es in self.edge_spec.items():
+            e = self.edges[eid]
+            if getattr(e.src_node, "id", None) != es["src"] or getattr(e.dest_node, "id", None) != es["dst"]:
+                raise RuntimeError("construct helper wired %s as %s -> %s, documented topology is %s -> %s" % (
+                    eid, getattr(e.src_node, "id", None), getattr(e.dest_node, "id", None), es["src"], es["dst"]))
+        for eid, edge in self.edges.items():
+            self.wrap_store(eid, edge)
+
     def build(self):
         spec = self.spec
         random.seed(spec.get("seed", 0))
+        if spec.get("via"):
+            return self.build_via_constructs()
         order = spec.get("order") or ([n["id"] for n in spec["nodes"]] + [e["id"] for e in spec["edges"]])
         for oid in order:
             if oid in self.node_spec:
